@@ -215,6 +215,21 @@ pub fn totality_texts(tier: Tier) -> Vec<(String, String)> {
         v.push((format!("decl:{}", n), format!("pragma solidity 0.8.19;\n{}", t)));
         v.push((format!("decl-nopragma:{}", n), t.to_string()));
     }
+    // ---- member-size sequences for the packing detectors (every order of a few sizes)
+    let sizes = ["bool", "uint64", "uint128", "address", "uint248", "uint256", "bytes31"];
+    for a in sizes {
+        for b in sizes {
+            for c in sizes {
+                for d in sizes {
+                    let t = format!(
+                        "pragma solidity 0.8.19;\nstruct S {{ {} a; {} b; {} c; {} d; }}\ncontract C {{ {} a; {} b; {} c; {} d; }}\n",
+                        a, b, c, d, a, b, c, d
+                    );
+                    v.push((format!("sizes:{}:{}:{}:{}", a, b, c, d), t));
+                }
+            }
+        }
+    }
     // ---- counts
     let counts: Vec<usize> = match tier {
         Tier::Quick => vec![0, 1, 2, 3, 127, 128, 255, 256, 257, 300, 1000],
@@ -412,9 +427,9 @@ pub fn run(tier: Tier) -> i32 {
     let mut run = Run::new("C04", tier_s);
     let me = std::env::current_exe().unwrap();
     let ovf = std::env::var("MC_OVF_BIN").unwrap_or_default();
-    let mut profiles: Vec<(String, std::path::PathBuf)> = vec![("release(overflow-checks=off)".to_string(), me)];
+    let mut profiles: Vec<(String, std::path::PathBuf)> = vec![("release(overflow-checks=off, debug-assertions=off)".to_string(), me)];
     if !ovf.is_empty() && std::path::Path::new(&ovf).exists() {
-        profiles.push(("ovf(overflow-checks=on)".to_string(), std::path::PathBuf::from(ovf)));
+        profiles.push(("ovf(overflow-checks=on, debug-assertions=on)".to_string(), std::path::PathBuf::from(ovf)));
     } else {
         run.machinery("overflow-checking build of the harness (MC_OVF_BIN) not found".to_string());
     }
